@@ -1,3 +1,6 @@
 import Stun.Basic.Bytes
 import Stun.Model.MsgType
+import Stun.Model.Decode
+import Stun.Spec.RFC5389
+import Stun.Proofs.Bits
 import Stun.Properties.C19
